@@ -121,6 +121,17 @@ def handle : List String → String
       | .ok i => encInfo i
       | .error e => "exc " ++ e.name
     | _, _ => "bad-arg"
+  | ["extra", ds, enc, u, lowerT, idnaT, ipv6T, unqT, encT] =>
+    -- the start URL is parsed with (ds, enc); the derived texts with the defaults of parse_url_or_log
+    match mkCfg ds enc lowerT idnaT ipv6T unqT encT, mkCfg "=68.74.74.70" "utf8" lowerT idnaT ipv6T unqT encT, decList? u with
+    | some c, some c', some u =>
+      match parse c u with
+      | .error e => "exc " ++ e.name
+      | .ok i =>
+        match extraUrls c' i with
+        | .ok l => "ok " ++ encLists l
+        | .error e => "exc " ++ e.name
+    | _, _, _ => "bad-arg"
   | ["orlog", ds, enc, u, lowerT, idnaT, ipv6T, unqT, encT] =>
     match mkCfg ds enc lowerT idnaT ipv6T unqT encT, decList? u with
     | some c, some u =>
